@@ -11,6 +11,7 @@ import Verif.Generated.TablesC07
 import Verif.Common.SemLemmas
 import Verif.C07.WfLemmas
 import Verif.C07.Lemmas
+import Verif.C07.DmrsLemmas
 
 namespace Verif.C07
 open Verif.Sem
@@ -381,6 +382,79 @@ theorem dmrsScopesError (d : DMRS) (e : Err) (h : d.scopes = .error e) :
                      (∃ t, d.top = some t ∧ t ∉ d.ids)) :=
   dmrs_scopes_error d e h
 
+/-! ## 8b. DMRS: scopes are the EQ-link classes; descendants and representatives (round 5)
+
+`DMRS.descendantsWith sc` / `DMRS.representativesWith sc` are `scope.descendants(d, sc)` /
+`scope.representatives(d)` for a given scope map `sc` (the order of the nodes inside a conjoined
+scope is Python `set` order, so the statements quantify over every scope map whose nodes are nodes
+of `d`); `DMRS.descendants` / `DMRS.representatives` use the model's own `DMRS.scopes`. -/
+
+/-- "conjoining scopes under label equalities yields exactly the connected components of those
+equalities", on DMRS: two nodes share a scope iff they are connected by EQ links — for arbitrary EQ
+link sets (cycles, parallel links, self loops) and however many nodes compare equal. -/
+theorem dmrsSameScopeIff (d : DMRS) (hnd : d.ids.Nodup) (top : Option Var)
+    (sc : List (Var × List Node)) (h : d.scopes = .ok (top, sc))
+    (n n' : Node) (hn : n ∈ d.nodes) (hn' : n' ∈ d.nodes) :
+    (∃ s ∈ sc, n ∈ s.2 ∧ n' ∈ s.2) ↔ Reach (adjOf (symm d.eqEdges)) n.id n'.id :=
+  dmrs_same_scope_iff d hnd top sc h n n' hn hn'
+
+/-- "for DMRS the top scope is the scope containing the top node itself": the top label is the key
+of the scope whose members are exactly the nodes EQ-connected to the node whose ID is `top` —
+node equality (`Node.pyEq`) plays no role. -/
+theorem dmrsTopScopeClass (d : DMRS) (hnd : d.ids.Nodup) (t : Int) (htop : d.top = some t)
+    (top : Option Var) (sc : List (Var × List Node)) (h : d.scopes = .ok (top, sc)) :
+    ∃ l ns, top = some l ∧ (l, ns) ∈ sc ∧
+      ∀ n ∈ d.nodes, (n ∈ ns ↔ Reach (adjOf (symm d.eqEdges)) t n.id) :=
+  dmrs_top_scope_class d hnd t htop top sc h
+
+/-- … even when another node compares equal to the top node and precedes it: a concrete DMRS with
+an EQ link between two equal nodes and a third equal node as top. -/
+example :
+    let n0 : Node := { id := 10000, predicate := "_dog_n_1", type := some "x" }
+    let n1 : Node := { id := 10001, predicate := "_dog_n_1", type := some "x" }
+    let n2 : Node := { id := 10002, predicate := "_dog_n_1", type := some "x" }
+    let d : DMRS := { top := some 10002, index := none, nodes := [n0, n1, n2],
+                      links := [⟨10000, 10001, "ARG1", "EQ"⟩] }
+    n0.pyEq n2 = true ∧ n1.pyEq n2 = true ∧
+      (match d.scopes with | .ok r => r.1 | .error _ => none) = some ⟨"h", 3⟩ :=
+  ⟨by decide, by decide, by rfl⟩
+
+/-- "scope descendants … always terminate", on DMRS: the fuelled recursion never runs out — the
+only other outcomes are the code's own KeyError (a scopal link starting at a missing node) and
+AssertionError (a scopal link ending at a missing node) — including cyclic H/HEQ links. -/
+theorem dmrsDescendantsTerminate (d : DMRS) (hnd : d.ids.Nodup) (sc : List (Var × List Node))
+    (hsc : ∀ s ∈ sc, ∀ n ∈ s.2, n.id ∈ d.ids) :
+    d.descendantsWith sc ≠ .error .fuel ∧ d.descendants ≠ .error .fuel :=
+  ⟨dmrs_descendantsWith_no_fuel d hnd sc hsc, dmrs_descendants_no_fuel d hnd⟩
+
+/-- when every scopal link joins nodes that are in some scope, every node gets a descendant list. -/
+theorem dmrsDescendantsTotal (d : DMRS) (hnd : d.ids.Nodup) (sc : List (Var × List Node))
+    (hsc : ∀ s ∈ sc, ∀ n ∈ s.2, n.id ∈ d.ids)
+    (hlinks : ∀ l ∈ d.links, (l.post = H_POST ∨ l.post = HEQ_POST) →
+        l.start ∈ d.ids ∧ l.stop ∈ dkeys (scopeLabelOf sc)) :
+    ∃ r, d.descendantsWith sc = .ok r ∧ ∀ i ∈ d.ids, i ∈ dkeys r :=
+  dmrs_descendantsWith_total d hnd sc hsc hlinks
+
+/-- "… and representatives always terminate, with each representative a member of its scope", on
+DMRS, for every scope map and for the model's own. -/
+theorem dmrsRepresentativesTerminate (d : DMRS) (hnd : d.ids.Nodup) (sc : List (Var × List Node))
+    (hsc : ∀ s ∈ sc, ∀ n ∈ s.2, n.id ∈ d.ids) :
+    d.representativesWith sc ≠ .error .fuel ∧ d.representatives ≠ .error .fuel :=
+  ⟨dmrs_representativesWith_no_fuel d hnd sc hsc, dmrs_representatives_no_fuel d hnd⟩
+
+theorem dmrsRepresentativesSubset (d : DMRS) (sc reps : List (Var × List Node))
+    (h : d.representativesWith sc = .ok reps) :
+    dkeys reps = dkeys sc ∧
+    ∀ l rs, (l, rs) ∈ reps → ∃ ns, (l, ns) ∈ sc ∧ ∀ r ∈ rs, r ∈ ns :=
+  dmrs_representativesWith_subset d sc reps h
+
+theorem dmrsRepresentativesSubsetOwn (d : DMRS) (hnd : d.ids.Nodup) (top : Option Var)
+    (sc reps : List (Var × List Node)) (hs : d.scopes = .ok (top, sc))
+    (h : d.representatives = .ok reps) :
+    dkeys reps = dkeys sc ∧
+    ∀ l rs, (l, rs) ∈ reps → ∃ ns, (l, ns) ∈ sc ∧ ∀ r ∈ rs, r ∈ ns ∧ r ∈ d.nodes :=
+  dmrs_representatives_subset d hnd top sc reps hs h
+
 /-! ## 9. The representation invariant of the model -/
 
 /-- "All MRSs in which every predication has an intrinsic argument": on them (the sort
@@ -421,6 +495,12 @@ this theorem from checking (reported as a broken proof obligation, followed by a
 * `DMRS.scopes` (`starting_vid=1`, `HANDLE`, `EQ_POST`, top by `node.id`), `_normalize_top_and_links`
   (`TOP_NODE_ID`), `Node.__eq__`, `VariableFactory` — `idToLbl`, `DMRS.leqs`, `DMRS.prescopes`, `DMRS.scopes`,
   `normalizeTopAndLinks`, `Node.pyEq`;
+* `DMRS.arguments` (skips `BARE_EQ_ROLE`; `H_POST`/`HEQ_POST` links count as type `HANDLE`; otherwise the
+  end node's `type`; defaults `None, None`), `DMRS.scopal_arguments` (`HEQ_POST`→`LHEQ`, `H_POST`→`QEQ`,
+  `id_to_lbl.get(end, end)`), `DMRS.is_quantifier` (outgoing `RESTRICTION_ROLE` link), `DMRS.properties`,
+  `DMRS.__init__` (`_normalize_top_and_links`) — `DMRS.linkPasses`, `DMRS.argsStep`, `DMRS.arguments`,
+  `scopeLabelOf`, `DMRS.scargsStep`, `DMRS.scopalArguments`, `DMRS.descendantsWith`, `DMRS.isQuantifier`,
+  `DMRS.repRank`, `DMRS.representativesWith`, `normalizeTopAndLinks`;
 * `util._bfs` (default start `None`, `deque`/`popleft`/`extend`, `g.get(x, [])`), `_connected_components` —
   `bfsLoop`, `bfs`, `componentsLoop`, `connectedComponents`;
 * `variable._variable_re` / `split` (groups 1, 2), sorts `u i p e x h` — `Var` (sort, vid), `Var.sortIn`
@@ -497,6 +577,21 @@ theorem c07_pins :
     c07DmrsNormalizeConsts = [] ∧
     c07DmrsNormalizeNames = ["start", "TOP_NODE_ID", "end", "append"] ∧
     c07DmrsNormalizeDefaults = [] ∧
+    c07DmrsArgumentsConsts = [] ∧
+    c07DmrsArgumentsNames = ["nodes", "id", "variable", "HANDLE", "links", "role", "BARE_EQ_ROLE", "post", "H_POST", "HEQ_POST", "end", "type", "start", "append"] ∧
+    c07DmrsArgumentsDefaults = ["None", "None"] ∧
+    c07DmrsScopalArgumentsConsts = [] ∧
+    c07DmrsScopalArgumentsNames = ["items", "id", "nodes", "links", "post", "HEQ_POST", "scope", "LHEQ", "H_POST", "QEQ", "get", "end", "start", "append", "role"] ∧
+    c07DmrsScopalArgumentsDefaults = ["None"] ∧
+    c07DmrsIsQuantifierConsts = ["<<genexpr>>", "None", "</>"] ∧
+    c07DmrsIsQuantifierNames = ["any", "links", "start", "role", "RESTRICTION_ROLE"] ∧
+    c07DmrsIsQuantifierDefaults = [] ∧
+    c07DmrsPropertiesConsts = ["None"] ∧
+    c07DmrsPropertiesNames = ["properties"] ∧
+    c07DmrsPropertiesDefaults = [] ∧
+    c07DmrsInitConsts = ["None"] ∧
+    c07DmrsInitNames = ["_normalize_top_and_links", "int", "super", "__init__", "list", "links"] ∧
+    c07DmrsInitDefaults = ["None", "None", "None", "None", "None", "None", "None"] ∧
     c07NodeEqConsts = ["None"] ∧
     c07NodeEqNames = ["isinstance", "Node", "NotImplemented", "predicate", "type", "properties", "carg"] ∧
     c07NodeEqDefaults = [] ∧
@@ -521,7 +616,7 @@ theorem c07_pins :
     c07MrsRoles = [INTRINSIC_ROLE, RESTRICTION_ROLE, "BODY", CONSTANT_ROLE, "q"] ∧
     c07ScopeRelations = ["leq", LHEQ, "outscopes", QEQ] ∧
     c07UntensedValues = ["", "untensed"] ∧
-    c07DmrsConstants = ["0", "10000", "RSTR", "MOD", EQ_POST, HEQ_POST, "NEQ", H_POST, "NIL", "cvarsort"] ∧
+    c07DmrsConstants = ["0", "10000", "RSTR", BARE_EQ_ROLE, EQ_POST, HEQ_POST, "NEQ", H_POST, "NIL", "cvarsort"] ∧
     c07IdProbes = (([pinEP [("ARG0", ⟨"x", 5⟩)], pinEP [("ARG0", ⟨"x", 5⟩), ("RSTR", ⟨"h", 2⟩)], pinEP [],
           pinEP [("RSTR", ⟨"h", 2⟩)]].map EP.baseId
         ++ (pinMRS3).ids
